@@ -77,6 +77,10 @@ MUTANTS = [
     # process configuration (fifth round)
     ("seeded-reqerr-metric-label-arity", "PATCH", "/verif/seeded/C12/reqerr-metric-label-arity/patch.diff"),
     ("seeded-scriptload-sha-memo-ignores-server", "PATCH", "/verif/seeded/C12/scriptload-sha-memo-ignores-server/patch.diff"),
+    # client configuration (sixth round)
+    ("seeded-config-cluster-drops-pass", "PATCH", "/verif/seeded/C12/config-cluster-drops-pass/patch.diff"),
+    ("withpass-ignored", R, "r.Pass = pass", "_ = pass"),
+    ("config-newredis-ignores-type", "lib/store/redis/config.go", "if c.Type == ClusterType {\n\t\topts = append(opts, WithCluster())\n\t}", "if false {\n\t\topts = append(opts, WithCluster())\n\t}"),
     # kv
     ("kv-hdel-other-key", KV, "return node.HDelCtx(ctx, key, field)", "return node.HDelCtx(ctx, field, key)"),
     ("kv-get-wrong-node", KV, fn("GetCtx", "node, err := s.getRedis(key)", "node, err := s.getRedis(key + \"x\")")),
